@@ -121,3 +121,20 @@ Definition calm (c : pcfg) (s : Z) (e : gev) : bool :=
 
 (* a continuation without a response opening [s] *)
 Definition no_open (s : Z) (e : gev) : bool := negb (g_opens s e).
+
+(* ---------------- the timed machine in the general vocabulary ---------------- *)
+
+(* the general events a timed history amounts to when run from state [t]: each
+   response with the visibility the clock gives it at that moment (t_vis: ttl
+   not lapsed), each TFire as the losses of the sleepers due at that moment *)
+Fixpoint tg_from (c : pcfg) (t : tstate) (evs : list tev) : list gev :=
+  match evs with
+  | [] => []
+  | e :: r => t_to_g t e ++ tg_from c (fst (tstep c t e)) r
+  end.
+
+(* number of responses of sequence [s] in a timed history *)
+Definition t_resp_of (s : Z) (e : tev) : bool :=
+  match e with TResp s' _ _ => s' =? s | _ => false end.
+Definition tcount_resp (s : Z) (evs : list tev) : Z :=
+  Z.of_nat (length (filter (t_resp_of s) evs)).
